@@ -1,0 +1,68 @@
+//! Verification seams (only compiled with `--cfg fuellabs_sway_verif`).
+//!
+//! Nothing in here changes behaviour unless a harness switches it on for the current thread
+//! (thread-locals) or installs a process-wide callback.
+
+use std::cell::{Cell, RefCell};
+use std::sync::OnceLock;
+
+thread_local! {
+    static SKIP_ASM_OPT: Cell<bool> = const { Cell::new(false) };
+    static CHECK_REGALLOC: Cell<bool> = const { Cell::new(false) };
+    static REGALLOC_REPORTS: RefCell<Vec<String>> = const { RefCell::new(Vec::new()) };
+    static REGALLOC_STATS: Cell<(u64, u64, u64)> = const { Cell::new((0, 0, 0)) };
+}
+
+/// Makes `AbstractInstructionSet::optimize` the identity on the current thread.
+pub fn set_skip_asm_opt(skip: bool) {
+    SKIP_ASM_OPT.with(|c| c.set(skip));
+}
+
+pub(crate) fn skip_asm_opt() -> bool {
+    SKIP_ASM_OPT.with(|c| c.get())
+}
+
+/// Switches the independent register-allocation checker on for the current thread.
+pub fn set_check_regalloc(on: bool) {
+    CHECK_REGALLOC.with(|c| c.set(on));
+}
+
+pub(crate) fn check_regalloc() -> bool {
+    CHECK_REGALLOC.with(|c| c.get())
+}
+
+pub(crate) fn report_regalloc(msg: String) {
+    REGALLOC_REPORTS.with(|r| r.borrow_mut().push(msg));
+}
+
+pub(crate) fn count_regalloc(functions: u64, def_live_pairs: u64, spilled: u64) {
+    REGALLOC_STATS.with(|c| {
+        let (a, b, s) = c.get();
+        c.set((a + functions, b + def_live_pairs, s + spilled));
+    });
+}
+
+/// Returns and clears the violations the checker recorded on this thread.
+pub fn take_regalloc_reports() -> Vec<String> {
+    REGALLOC_REPORTS.with(|r| std::mem::take(&mut *r.borrow_mut()))
+}
+
+/// (instruction lists checked, (definition, live-out register) pairs checked, spilled registers)
+pub fn take_regalloc_stats() -> (u64, u64, u64) {
+    REGALLOC_STATS.with(|c| c.replace((0, 0, 0)))
+}
+
+type PointFn = Box<dyn Fn(&'static str, bool) + Send + Sync>;
+static ABORT_CHECK_POINT: OnceLock<PointFn> = OnceLock::new();
+
+/// Installs a process-wide callback invoked by `check_should_abort` just before it reads the
+/// language server's retrigger flag.
+pub fn set_abort_check_point(f: PointFn) {
+    let _ = ABORT_CHECK_POINT.set(f);
+}
+
+pub(crate) fn abort_check_point(has_flag: bool) {
+    if let Some(f) = ABORT_CHECK_POINT.get() {
+        f("W:abort_check", has_flag);
+    }
+}
